@@ -52,7 +52,34 @@ def _snapshot_globals():
                 except Exception:  # noqa
                     pass
         snap[(mod.__name__, "__names__")] = names
+    # class-level containers (a memo shared by all instances lives there) and the attribute names each class has at import time
+    csnap = {}
+    for cls in _pyrepseq_classes():
+        csnap[cls] = (set(vars(cls)), {k: copy.deepcopy(v) for k, v in vars(cls).items() if type(v) in (dict, list, set)})
+    snap[("__classes__", "")] = csnap
     return snap
+
+
+def _pyrepseq_classes():
+    seen = []
+    for mod in _pyrepseq_modules():
+        for v in list(vars(mod).values()):
+            if isinstance(v, type) and str(getattr(v, "__module__", "")).startswith("pyrepseq") and v not in seen:
+                seen.append(v)
+    return seen
+
+
+def _clear_function_caches():
+    """functools caches (lru_cache / cache) on module-level functions and on methods: empty in a fresh interpreter"""
+    for holder in _pyrepseq_modules() + _pyrepseq_classes():
+        for v in list(vars(holder).values()):
+            f = getattr(v, "__func__", v)
+            clear = getattr(f, "cache_clear", None)
+            if callable(clear):
+                try:
+                    clear()
+                except Exception:  # noqa
+                    pass
 
 
 def _restore_globals():
@@ -77,6 +104,16 @@ def _restore_globals_plain():
         for (mname, k), v in snap.items():
             if mname == mod.__name__ and k != "__names__":
                 setattr(mod, k, copy.deepcopy(v))
+    for cls, (names0, vals) in snap.get(("__classes__", ""), {}).items():
+        for k in list(vars(cls)):
+            if k not in names0:
+                try:
+                    delattr(cls, k)                   # class attribute created at run time
+                except Exception:  # noqa
+                    pass
+        for k, v in vals.items():
+            setattr(cls, k, copy.deepcopy(v))
+    _clear_function_caches()
 
 
 def _havoc(sym):
@@ -102,6 +139,13 @@ def _history(pyrepseq, nn):
     db = nn.LookupDB(["AA", "C"])
     db.lookup(["AC"], max_edits=2)
     nn.SymdelDB(["AA", "C"], 1).lookup(["CA"])
+    # every string the scenarios can build over their two letters, searched with a LARGER radius than any scenario uses: a memo that is
+    # extended in place, or keyed without the radius, now holds entries that are wrong for the scenario's own call
+    every = ["A", "C", "AA", "AC", "CA", "CC"]
+    pyrepseq.hash_based(list(every), max_edits=3)
+    pyrepseq.hash_based(list(every), max_edits=3, custom_distance="hamming")
+    pyrepseq.symdel(list(every), max_edits=3)
+    pyrepseq.kdtree(list(every), max_edits=3)
     try:
         pyrepseq.kdtree(["AA"], max_edits=0)
     except Exception:
@@ -229,6 +273,39 @@ def _scenarios():
         seqs = strs(sym, (1, 1, 1), lo=1)
         return (lambda: distance.hierarchical_clustering(seqs)), {"seqs": seqs}
     S["hierarchical_clustering/defaults"] = (hier, False)
+
+    def hier_any_size(custom):
+        def make(sym):
+            # the SIZE of the input is an explicit symbolic variable (0 .. 10^9): code that treats large inputs differently is on some path
+            from pyrepseq import distance
+            from pyrepseq.metric import Metric
+            from models import sp_model
+            n = sym.sym_int("n", 0, 10 ** 9)
+
+            class Sized(list):
+                def __len__(self):
+                    return n
+
+                @property
+                def shape(self):
+                    return (n,)
+
+            class TermMetric(Metric):
+                name = "term"
+
+                def calc_pdist_vector(self, inst):
+                    return sp_model.Term("metric.pdist", (id(inst),), {})
+
+                def calc_cdist_matrix(self, a, b):
+                    raise NotImplementedError
+            seqs, m = Sized(), TermMetric()
+            if custom:
+                lk, ck = dict(method="single"), dict(t=2)
+                return (lambda: distance.hierarchical_clustering(seqs, metric=m, linkage_kws=lk, cluster_kws=ck)), {"linkage_kws": lk, "cluster_kws": ck}
+            return (lambda: distance.hierarchical_clustering(seqs, metric=m)), {}
+        return make
+    S["hierarchical_clustering/any-size/defaults"] = (hier_any_size(False), False)
+    S["hierarchical_clustering/any-size/custom_kws"] = (hier_any_size(True), False)
 
     def tcrm(sym):
         from pyrepseq.metric import tcr_metric
@@ -438,6 +515,42 @@ def _replay(name):
                 return False, f"{name}: the caller's collection was modified: {before_arg!r} -> {arg!r}, reference {before_ref!r} -> {ref!r}"
             r1 = run()
             return r0 == r1, f"{name}: {r0!r} then {r1!r}"
+        if name.startswith("hierarchical_clustering/any-size"):
+            # real SciPy, real pyrepseq: a collection of the witnessed size (genuine random CDR3-like strings up to 3000 elements; beyond that a
+            # container that merely REPORTS that size, with a metric returning the distances of four points)
+            import random
+            from pyrepseq.metric import Metric
+            n = int(inputs.get("n", 3))
+            small = ["CASSLGQYF", "CASSLGAYF", "CATSLGQYF", "CASRRGQYF", "CASSLGQ", "CAWSVGQYF"]
+            base0 = [np.asarray(x).tolist() for x in distance.hierarchical_clustering(list(small))]
+            lk, ck = dict(method="single"), dict(t=2)
+            before = copy.deepcopy((lk, ck))
+            kw = dict(linkage_kws=lk, cluster_kws=ck) if name.endswith("custom_kws") else {}
+            if 2 <= n <= 3000:
+                rnd = random.Random(n)
+                big = ["C" + "".join(rnd.choice("ACDEFGHIKLMNPQRSTVWY") for _ in range(rnd.randint(5, 9))) + "F" for _ in range(n)]
+                distance.hierarchical_clustering(big, **kw)
+            else:
+                class Sized(list):
+                    def __len__(self):
+                        return n
+
+                class Four(Metric):
+                    name = "four"
+
+                    def calc_pdist_vector(self, inst):
+                        return np.array([1.0, 4.0, 5.0, 3.0, 6.0, 2.0])
+
+                    def calc_cdist_matrix(self, a, b):
+                        raise NotImplementedError
+                distance.hierarchical_clustering(Sized(), metric=Four(), **kw)
+            bad = hc.defaults_intact(defaults0)
+            if bad:
+                return False, f"{name}: after a call on {n} sequences: " + "; ".join(bad)[:400]
+            if (lk, ck) != before:
+                return False, f"{name}: after a call on {n} sequences the caller's option dictionaries changed from {before!r} to {(lk, ck)!r}"
+            base1 = [np.asarray(x).tolist() for x in distance.hierarchical_clustering(list(small))]
+            return base0 == base1, f"{name}: hierarchical_clustering of {small} gave {base0[0]!r} before and {base1[0]!r} after a call on {n} sequences"
         if name not in calls:
             return True, "no real-stack counterpart (wiring scenario)"
         # value in a FRESH interpreter (no history at all)
@@ -456,6 +569,11 @@ def _replay(name):
         pyrepseq.kdtree(["AA", "AC", "A"], max_edits=2, max_returns=1, custom_distance="hamming")
         pyrepseq.symdel(["AA", "C", "AC"], max_edits=1)
         pyrepseq.hash_based(["AA", "C"], max_edits=1)
+        every = sorted({"A", "C", "AA", "AC", "CA", "CC"} | {x for x in (S(0, 2), S(1), S(2, 2)) if set(x) <= set("ACDEFGHIKLMNPQRSTVWY")})
+        pyrepseq.hash_based(list(every), max_edits=3)
+        pyrepseq.hash_based(list(every), max_edits=3, custom_distance="hamming")
+        pyrepseq.symdel(list(every), max_edits=3)
+        pyrepseq.kdtree(list(every), max_edits=3)
         try:
             pyrepseq.symdel([], max_edits=1)
         except Exception:
